@@ -486,17 +486,17 @@ func (a *avsRun) submission(t *avsTask, outsider *avsOp) {
 	}
 	if p, ok := t.payload[op.o.Addr()]; ok && has1 {
 		resp, malformed = p, t.malformed[op.o.Addr()]
-	} else if !has1 && r.Intn(7) == 0 {
+	} else if !has1 && r.Intn(4) == 0 {
 		// an operator that commits (phase one signs the digest of the payload) to something that is not a task
 		// response; everything else about its two submissions is in order
-		switch r.Intn(4) {
-		case 0:
+		switch r.Intn(6) {
+		case 0, 1:
 			malformed = "two-documents"
 			resp = append(resp, a.response(t, t.id+6)...)
-		case 1:
+		case 2, 3:
 			malformed = "trailing-bytes"
 			resp = append(resp, []byte(" xyz")...)
-		case 2:
+		case 4:
 			malformed = "truncated"
 			resp = resp[:len(resp)-3]
 		default:
